@@ -227,7 +227,7 @@ M(t, h)  == MatchIdx(t, h)
 CN(t, h) == {i \in M(t, h) : IsCname(t[i])}
 Better(t, j, i) == \/ ~t[j].w /\ t[i].w
                    \/ t[j].w /\ t[i].w /\ Len(t[j].n) > Len(t[i].n)
-FirstHops(t, h, qt) == {s.cs.h : s \in {x \in StepResults(t, h, qt, ChaseInit(h)) : ~x.done}}
+FirstHops(t, h, qt) == {s.cs.h : s \in {x \in StepResults(t, h, qt, ChaseInit(h), {}) : ~x.done}}
 Range(t) == {t[i] : i \in DOMAIN t}
 
 (***************************************************************************)
@@ -283,6 +283,36 @@ P_ExactAll(t, h, qt, O) ==
     A_ExactAll(t, h, qt) =>
         O = {Rw(NoName, {t[i].ip : i \in {j \in M(t, h) : ~t[j].w /\ t[j].k = Fam(qt)}}, FALSE)}
 
+\* An exact address entry shadows the wildcard address entries also for the
+\* type it says nothing about ("within one kind": CNAME or address).
+A_ExactOtherFamily(t, h, qt) ==
+    /\ CN(t, h) = {} /\ Fam(qt) # "none"
+    /\ \E i \in M(t, h) : ~t[i].w /\ ~IsCname(t[i])
+    /\ ~\E i \in M(t, h) : ~t[i].w /\ HasValueFor(t[i], qt)
+    /\ \E j \in M(t, h) : t[j].w /\ HasValueFor(t[j], qt)
+P_ExactOtherFamily(t, h, qt, O) == A_ExactOtherFamily(t, h, qt) => O = {Rw(NoName, {}, FALSE)}
+\* All entries of the one wildcard pattern that matches answer together
+\* (duplicates, any entry order).
+A_WildAll(t, h, qt) ==
+    /\ CN(t, h) = {} /\ Fam(qt) # "none"
+    /\ \A i \in M(t, h) : t[i].w
+    /\ \E i, j \in M(t, h) : i # j
+    /\ \A i, j \in M(t, h) : t[i].n = t[j].n
+P_WildAll(t, h, qt, O) ==
+    A_WildAll(t, h, qt) =>
+        O = IF \E i \in M(t, h) : IsExc(t[i]) /\ t[i].k = qt THEN {Pass}
+            ELSE {Rw(NoName, {t[i].ip : i \in {j \in M(t, h) : t[j].k = Fam(qt)}}, FALSE)}
+\* An exception met on a canonical name does not undo the CNAME entries that
+\* led there: a name with a CNAME entry that is not an exception itself never
+\* passes through unless CNAMEs can meet again (a cycle).
+A_LateException(t, h, qt) ==
+    /\ CN(t, h) # {} /\ ~\E i \in CnameWinners(t, h) : IsSelf(t[i], h)
+    /\ \E i \in CnameWinners(t, h) : \E j \in M(t, t[i].t) :
+           IsSelf(t[j], t[i].t) \/ (IsExc(t[j]) /\ t[j].k = qt)
+P_LateException(t, h, qt, O) ==
+    (CN(t, h) # {} /\ ~(\E i \in CnameWinners(t, h) : IsSelf(t[i], h)) /\ Pass \in O) =>
+        \E e \in Range(t) : IsCname(e) /\ \E e2 \in Range(t) : IsCname(e2) /\ ~IsSelf(e2, e.t) /\ Matches(e2, e.t)
+
 \* 'name to itself', 'A' and 'AAAA' entries are pass-through exceptions.
 A_SelfPasses(t, h, qt) ==
     CN(t, h) # {} /\ \A i \in CnameWinners(t, h) : IsSelf(t[i], h)
@@ -329,7 +359,7 @@ P_UpstreamOnlyForUnknown(t, h, qt, O) ==
 ClauseNames == <<"Unmatched", "CnameBeatsAddress", "ShadowCname", "ExactShadowsWildcard",
                  "MostSpecificWildcard", "ExactAll", "SelfPasses", "KeywordPasses",
                  "WildKeywordPasses", "PassNeedsException", "AddressesFromTable",
-                 "MatchedNoValue", "CanonNoValue">>
+                 "MatchedNoValue", "CanonNoValue", "ExactOtherFamily", "WildAll", "LateException">>
 
 Witness(t, v) ==
     LET Ex(A(_, _, _)) == \E qq \in Queries : A(t, qq.h, qq.t) IN
@@ -347,6 +377,9 @@ Witness(t, v) ==
                \E qq \in Queries : M(t, qq.h) # {} /\ Pass \in v[qq]
           [] n = "AddressesFromTable" ->
                \E qq \in Queries : \E o \in v[qq] : o.ips # {} /\ o.canon # NoName
+          [] n = "ExactOtherFamily" -> Ex(A_ExactOtherFamily)
+          [] n = "WildAll" -> Ex(A_WildAll)
+          [] n = "LateException" -> Ex(A_LateException)
           [] n = "MatchedNoValue" -> Ex(A_MatchedNoValue)
           [] n = "CanonNoValue" ->
                \E qq \in Queries : \E o \in v[qq] :
@@ -361,11 +394,11 @@ Unmatched            == All(P_Unmatched)
 WellFormed           == All(P_WellFormed)
 CnameBeatsAddress    == All(P_CnameBeatsAddress)
 ExactShadowsWildcardCname == All(P_ShadowCname)
-ExactShadowsWildcard == All(P_Shadowing) /\ All(P_ExactAll)
-MostSpecificWildcard == All(P_Shadowing)
+ExactShadowsWildcard == All(P_Shadowing) /\ All(P_ExactAll) /\ All(P_ExactOtherFamily)
+MostSpecificWildcard == All(P_Shadowing) /\ All(P_WildAll)
 SelfAndTypeExceptionsPassThrough ==
     /\ All(P_SelfPasses) /\ All(P_KeywordPasses) /\ All(P_WildKeywordPasses)
-    /\ All(P_PassNeedsException)
+    /\ All(P_PassNeedsException) /\ All(P_LateException)
 AddressesComeFromTableForFinalName == All(P_AddressesFromTable)
 MatchedButNoValue    == All(P_MatchedNoValue) /\ All(P_UpstreamOnlyForUnknown)
 
@@ -388,22 +421,39 @@ EncOut(o) == <<o.r, EncName(o.canon), o.ips, o.up>>
 \* that too.
 EncVerdicts(t, v) ==
     {<<NameIdx[qq.h], qq.t, {EncOut(o) : o \in v[qq]}>> : qq \in {x \in Queries : M(t, x.h) # {}}}
-\* The additional outcomes when every CNAME answer of t is written in another
-\* letter case and read verbatim (RewritesCore: SILENT (case)); the harness
-\* replays every table with a CNAME entry a second time in that spelling and
-\* admits v and vc.
+\* The outcomes when every CNAME answer of t is written in another letter
+\* case and read verbatim (RewritesCore: deviation "case", together with the
+\* other deviations).  The harness replays every table with a CNAME entry a
+\* second time in that spelling; v is what must come out, vc serves to
+\* attribute a disagreement to the finding about letter case.
+\* For the attribution of disagreements to findings: where admitting one
+\* deviation ("tie", "exact", "late"; "all" = all three) changes the admissible
+\* set of a query, that set.  Cheap guards keep TLC from evaluating every query
+\* several times for tables where the deviation cannot matter.
+AddrIdx(t) == {i \in DOMAIN t : ~IsCname(t[i])}
+Guard(t, f) ==
+    CASE f = "tie"   -> \E i, j \in AddrIdx(t) : i # j /\ t[i].w /\ t[j].w /\ t[i].n = t[j].n
+      [] f = "exact" -> \E i, j \in AddrIdx(t) : ~t[i].w /\ t[j].w /\ Matches(t[j], t[i].n)
+      [] f = "late"  -> /\ \E i \in DOMAIN t : IsCname(t[i])
+                        /\ \E i \in DOMAIN t : IsExc(t[i]) \/ (IsCname(t[i]) /\ (t[i].t = PatName(t[i]) \/ Matches(t[i], t[i].t)))
+      [] OTHER -> FALSE
+EncLoose(t, v) ==
+    LET fs == {f \in Deviations : Guard(t, f)}
+        One(f, L) == {<<NameIdx[qq.h], qq.t, f, {EncOut(o) : o \in OutcomesL(t, qq.h, qq.t, L)}>>
+                        : qq \in {x \in Queries : M(t, x.h) # {} /\ OutcomesL(t, x.h, x.t, L) # v[x]}}
+    IN UNION {One(f, {f}) : f \in fs} \cup (IF Cardinality(fs) > 1 THEN One("all", fs) ELSE {})
 HasCname(t) == \E i \in DOMAIN t : IsCname(t[i])
 EncCaseVerdicts(t) ==
     IF ~HasCname(t) THEN {}
     ELSE LET et == [i \in DOMAIN t |-> Estrange(t[i])] IN
-         {<<NameIdx[qq.h], qq.t, {EncOut(UnmarkOut(o)) : o \in Outcomes(et, qq.h, qq.t)}>>
+         {<<NameIdx[qq.h], qq.t, {EncOut(UnmarkOut(o)) : o \in OutcomesL(et, qq.h, qq.t, Deviations)}>>
             : qq \in {x \in Queries : M(t, x.h) # {}}}
 \* o = 1: replay the table in this order only (family tables); o = 0: the
 \* table stands for all its orderings (entry-built tables).
 Emit(t, v, w, o) ==
     IF Mode = "gen" /\ Len(t) >= EmitFrom
     THEN PrintT(<<"@@V", ToJson([t |-> [i \in DOMAIN t |-> EncEntry(t[i])],
-                                 v |-> EncVerdicts(t, v), vc |-> EncCaseVerdicts(t),
+                                 v |-> EncVerdicts(t, v), vc |-> EncCaseVerdicts(t), vk |-> EncLoose(t, v),
                                  w |-> w, o |-> o])>>)
     ELSE TRUE
 \* Serve as a table for the pipeline harness: for each kind of outcome and
@@ -419,7 +469,8 @@ ServeTable ==
             LET e == Serve(o, h0, "A", LAMBDA n : m) IN
             [kind |-> kind, mode |-> m,
              ask |-> IF e.ask = {} THEN "none" ELSE Sym((CHOOSE a \in e.ask : TRUE)[1]),
-             cname |-> e.cname # NoName, ips |-> e.ips # {}, fromup |-> Sym(e.fromup), rcode |-> e.rcode]
+             cname |-> e.cname # NoName, ips |-> e.ips # {}, fromup |-> Sym(e.fromup), rcode |-> e.rcode,
+             cnameopt |-> e.cnameopt]
     IN UNION {{Row("pass", Pass, m), Row("up", Rw(k, {}, TRUE), m), Row("local", Rw(k, {"i"}, FALSE), m)}
               : m \in UpModes}
 Header == PrintT(<<"@@V", ToJson([hdr |-> 1, names |-> NameSeq,
@@ -484,7 +535,7 @@ PickQuery == /\ Mode = "live" /\ stage \in {"table", "family"} /\ tab # <<>>
              /\ UNCHANGED <<tab, last, vt, wit, out>>
 
 ChaseStep == /\ stage = "chase"
-             /\ \E s \in StepResults(tab, q.h, q.t, cs) :
+             /\ \E s \in StepResults(tab, q.h, q.t, cs, {}) :
                   IF s.done THEN stage' = "done" /\ out' = s.out /\ cs' = cs
                   ELSE stage' = "chase" /\ cs' = s.cs /\ out' = out
              /\ UNCHANGED <<tab, last, vt, wit, q>>
@@ -544,7 +595,8 @@ Describe == /\ stage = "hist"
             /\ stage' = "described"
             /\ vt' = Verdicts(tab)
             /\ wit' = Witness(tab, vt')
-            /\ PrintT(<<"@@V", ToJson([k |-> "state", t |-> EncTab(tab), v |-> EncVerdicts(tab, vt')])>>)
+            /\ PrintT(<<"@@V", ToJson([k |-> "state", t |-> EncTab(tab), v |-> EncVerdicts(tab, vt'),
+                                        vk |-> EncLoose(tab, vt')])>>)
             /\ UNCHANGED <<tab, last, q, cs, out>>
 
 \* The verdicts of a table reached by edits are those of the table itself:
